@@ -119,8 +119,10 @@ def run(rep, tier):
     rep.rule = ("TLC explores the rearrangement machine (Comm, Assoc, Distrib, Factor, AddZero, MulOne, FoldNum/SplitNum, SucPlus, SubNeg, "
                 "NegMul, NegNeg, NegAdd, PowFold/Unfold, Dup/Dedup, DeMorgan, DNeg at every position) from every +,* tree with <= 3 leaves over "
                 "{x, y, 0, 1, 2} at nat and at the ring types, hand-picked seeds with - uminus ^ Suc and truncated subtraction as an opaque "
-                "atom, one chain per member set of <= 3 members (literals incl. true, false, complementary pairs, a compound member) for /\\ "
-                "and \\/, and negated formulas, growing to %s. An orbit = the reachable states of one class (polynomial / member set). Every "
+                "atom, one chain per member set of <= 3 members over {A, B, ~A, ~B, true, false} (thorough: also C, ~C, A-->B, A|C) for /\\ and \\/ "
+                "plus 14 wide seeds of 3-4 members over three atoms (complementary pair on the smallest / a middle / the largest atom, two "
+                "pairs, with true / false / a compound / a duplicated member) of which EVERY order and bracketing is reached, and negated "
+                "formulas, growing to %s. An orbit = the reachable states of one class (polynomial / member set). Every "
                 "orbit is replayed (at most %d members of an orbit: the smallest and a seeded sample; ring orbits at real and %s at int) through "
                 "every normaliser of its kind. TLC enumerates all well-typed closed terms with binders of size <= %d over {x, y, f, 0, +} plus "
                 "rule redexes nested / under binders / conditional, beta-redexes contracting to abstractions, eta-expansions; a seeded 1/%d of "
@@ -128,7 +130,7 @@ def run(rep, tier):
                 "%d seeded random orbits of 4-7 leaf expressions. Non-trivial = the conversion returned an equation and the contract, the "
                 "checker replay and the exact value clause (polynomial / truth table) were evaluated, or an orbit with at least two members "
                 "of one class was compared; distinct by full event content."
-                % (("3 leaves / 3 members / size 9", 24, "a quarter of them", 6, 4, 40) if quick else ("4 leaves / 4 members / size 11", 100, "all", 7, 2, 1000)))
+                % (("3 leaves / 3 members / size 9", 24, "a quarter of them", 6, 5, 40) if quick else ("4 leaves / 4 members / size 11", 100, "all", 7, 2, 1000)))
     rep.assumptions = ["formal polynomial identity over variable atoms = equality of the denoted functions on nat / int / real (infinite domains); "
                        "with opaque atoms (truncated subtraction) a difference is only a divergence",
                        "canonicity and idempotence are demanded of nat.norm_full, real.real_norm_conv, auto.auto_conv (reals), proplogic.norm_full / "
@@ -175,7 +177,7 @@ def run(rep, tier):
         rep.notes["term_universe"] = " ".join(r2.out[r2.out.find('<< "terms"'):].split(">>")[0].replace("<<", "").split())
     # ---- spec -> code: one driver process (theories loaded once), forked workers
     allp = wd / "events.ndjson"
-    arith_mod, int_mod, comb_mod, nrand, cap = (1, 4, 4, 40, 24) if quick else (1, 1, 2, 1000, 100)
+    arith_mod, int_mod, comb_mod, nrand, cap = (1, 4, 5, 40, 24) if quick else (1, 1, 2, 1000, 100)
     p, _ = run_driver("c10", ["all", dump_file, vec, allp, 3 if quick else 4, arith_mod, int_mod, comb_mod, nrand, seed(), cap], timeout=6000)
     rep.notes["driver"] = p.stdout.strip().splitlines()[-5:]
     phase("driver")
